@@ -381,4 +381,7 @@ pub fn run(rc: &mut RunCtx) {
     rc.require_label("schedules", "has_pending", 100_000);
     rc.require_label("schedules", "buffered_set", 50_000);
     rc.require_label("schedules", "input_larger_than_64KiB", 5_000);
+    if !rc.quick() {
+        rc.run_fuzz(Some(STAGES[0]), 350);
+    }
 }
